@@ -66,18 +66,35 @@ func (s *session) Connection() net.Conn {
 }
 
 func (s *session) Decrypter() crypto.Decrypter {
-	// Return the next cryptographer when possible
-	// This allows sessions to switch encryption
+	s.mu.Lock()
+	defer s.mu.Unlock()
+
+	// Incoming data is encrypted with the next cryptographer
+	// as soon as it is known.
 	if s.nextCryptographer != nil {
-		s.cryptographer = s.nextCryptographer
-		s.nextCryptographer = nil
+		return s.nextCryptographer
 	}
 
 	return s.cryptographer
 }
 
 func (s *session) Encrypter() crypto.Encrypter {
+	s.mu.Lock()
+	defer s.mu.Unlock()
+
 	return s.cryptographer
+}
+
+// activateNextCryptographer makes the next cryptographer the current one.
+// It is called after the response, which finished pair verify, was written.
+func (s *session) activateNextCryptographer() {
+	s.mu.Lock()
+	defer s.mu.Unlock()
+
+	if s.nextCryptographer != nil {
+		s.cryptographer = s.nextCryptographer
+		s.nextCryptographer = nil
+	}
 }
 
 func (s *session) PairSetupHandler() ContainerHandler {
@@ -90,9 +107,11 @@ func (s *session) PairVerifyHandler() PairVerifyHandler {
 
 func (s *session) SetCryptographer(c crypto.Cryptographer) {
 	// Temporarily set the cryptographer as the nextCryptographer
-	// The nextCryptographer is used the next time Decrypter() is called.
-	// Otherwise the Encrypter() encrypts differently than the previous Decrypter()
+	// The nextCryptographer is used for incoming data immediately but for outgoing data
+	// not until the pending (unencrypted) response was written.
+	s.mu.Lock()
 	s.nextCryptographer = c
+	s.mu.Unlock()
 }
 func (s *session) SetPairSetupHandler(c ContainerHandler) {
 	s.pairStartHandler = c
